@@ -294,7 +294,7 @@ def main(argv=None):
         ],
         "known_findings": kf_out,
         "undecided": undecided[:20],
-        "explanation": meta.get("explanation", ""),
+        "explanation": meta.get("explanation", "") or ("this run discharged %d obligations that hold for all sizes / fixed-size objects (counted under obligations), %d bounded-shape obligations (symbolic execution of the real source, complete over ALL real/integer values for a stated small array shape; counted separately, never as proved for all sizes) and ran %d bounded contract evaluations on the really imported classes (%d cases)" % (n_obl, n_bshape_obl, len(bounded_out), bounded_evals)),
         "evaluations": max(1, bounded_evals + sum(c["paths"] for c in per_contract)),
         "distinct_nontrivial": max(2, sum(int(b.get("distinct", b.get("cases", 0))) for b in bounded_out) + sum(c["feasible_paths"] for c in per_contract)),
         "rule": "evaluations = symbolic paths explored + bounded cases run; distinct_nontrivial = satisfiable symbolic paths + distinct bounded cases",
